@@ -109,7 +109,7 @@ def binding_order(ctx):
     # _lambdify_mv: symbols sorted by name, expressions in key order
     q = "codegen._lambdify_mv"
     fn = ctx.func(q)
-    syms = [Obj("symbol", {"name": n, "fmt": n}) for n in ("zeta", "alpha", "mid", "beta")]
+    syms = [Obj("symbol", {"name": n, "fmt": n}) for n in ("x10", "alpha", "x2", "beta", "x1", "X")]
     alg = rep_algebra(3, extra_attrs={"cse": True})
     mv = mv_obj(alg, (4, 1, 7), [Val("E3"), Val("E1"), Val("E123")])
     mv.attrs["free_symbols"] = list(syms)      # arbitrary (set) order
@@ -142,7 +142,7 @@ def binding_order(ctx):
     fn = ctx.func(q)
     for label, args, kwargs, want in (
             ("positional", [10, 20, 30], {}, [10, 20, 30]),
-            ("keywords out of order", [], {"mid": 2, "alpha": 1, "zeta": 3}, [1, 2, 3]),
+            ("keywords out of order", [], {"x2": 2, "alpha": 1, "x10": 3, "x1": 4, "X": 0, "beta": 9}, [0, 1, 9, 4, 3, 2]),
             ("keywords in order", [], {"alpha": 1, "beta": 5}, [1, 5])):
         c = f"{q}#{label}"
         got = {}
